@@ -1,5 +1,7 @@
 // perturb.hpp -- seeded schedule perturbation through the OSMIUM_VERIF_SCHED hook points, process probes.
 #pragma once
+#include <cstdio>
+#include <cstring>
 
 #include "../engine/vp.hpp"
 
@@ -78,7 +80,37 @@ inline int count_dir(const char* path) {
     closedir(d);
     return n;
 }
-inline int thread_count() { return count_dir("/proc/self/task"); }
+#if defined(__SANITIZE_THREAD__)
+#define VERIF_TSAN_BUILD 1
+#elif defined(__has_feature)
+#if __has_feature(thread_sanitizer)
+#define VERIF_TSAN_BUILD 1
+#endif
+#endif
+// Threads of this process. In ThreadSanitizer builds only the threads that carry one of the library's thread names ("_osmium_..."):
+// the TSan runtime has a background thread of its own which it (re)starts in a forked child at a moment of its choosing -- with all
+// threads counted, "one thread more than before" was reported for a correct pool (thorough tier, once in 180 000 executions).
+inline int thread_count() {
+#ifdef VERIF_TSAN_BUILD
+    int n = 0;
+    DIR* d = opendir("/proc/self/task");
+    if (!d) return -1;
+    while (struct dirent* e = readdir(d)) {
+        if (e->d_name[0] == '.') continue;
+        char path[300];
+        std::snprintf(path, sizeof(path), "/proc/self/task/%s/comm", e->d_name);
+        if (FILE* f = std::fopen(path, "r")) {
+            char name[64] = {0};
+            if (std::fgets(name, sizeof(name), f) && std::strncmp(name, "_osmium", 7) == 0) ++n;
+            std::fclose(f);
+        }
+    }
+    closedir(d);
+    return n;
+#else
+    return count_dir("/proc/self/task");
+#endif
+}
 inline int fd_count() { return count_dir("/proc/self/fd") - 1; }  // minus the directory handle itself
 
 // restrict the process to n cpus (0 = all); the window is shifted by the shard number so that parallel shards do not all
